@@ -23,6 +23,10 @@ type c16Ev struct {
 
 // one PMap call. gate: park every invocation until min(bound, remaining) are parked (or nothing more arrives), then release
 // them one at a time in a seeded order.  Positive observations: number parked at once, PMap returning while invocations are parked.
+// c16SharedOpt: when set, every call of c16Run passes THIS option object (a caller reusing one PMapOption for many calls); the pool
+// size judged is the one the caller wrote into it
+var c16SharedOpt *fpgo.PMapOption
+
 func c16Run(rng *rand.Rand, n int, pool int, usePool, random, gate bool) E {
 	out := E{"n": n, "pool": 0, "random": random, "gate": gate, "kind": "ok", "maxParked": 0, "fast": 0, "fastout": []int{}, "applied": 0}
 	if usePool {
@@ -69,6 +73,9 @@ func c16Run(rng *rand.Rand, n int, pool int, usePool, random, gate bool) E {
 		if usePool {
 			opt.FixedPool = pool
 		}
+	}
+	if c16SharedOpt != nil {
+		opt = c16SharedOpt
 	}
 	resCh := make(chan []int, 1)
 	go func() {
@@ -217,7 +224,11 @@ func c16Big(rng *rand.Rand, n, pool int, random bool) E {
 
 // long list, trivial f: every worker runs through hundreds or thousands of elements without ever waiting (whatever is batched or
 // reused between a worker's results shows here); the whole result goes to TLC (Trace_PMapAbs, fields fast / fastout / applied)
-func c16Fast(n, pool int, usePool, random bool) E {
+func c16Fast(n, pool int, usePool, random bool) E { return c16FastN(n, pool, usePool, random, false) }
+
+// nested: f itself calls PMap (a parallel map inside a parallel map); with hundreds of outer invocations in flight the inner calls
+// must still get their goroutines and everything returns
+func c16FastN(n, pool int, usePool, random, nested bool) E {
 	out := E{"n": 0, "pool": 0, "random": random, "gate": false, "kind": "ok", "maxParked": 0, "events": []c16Ev{{"ret", 0}}, "out": []int{}, "big": 0,
 		"fast": n, "fastout": []int{}, "applied": 0}
 	var applied int32
@@ -227,6 +238,14 @@ func c16Fast(n, pool int, usePool, random bool) E {
 	}
 	f := func(x int) int {
 		atomic.AddInt32(&applied, 1)
+		if nested {
+			time.Sleep(3 * time.Millisecond) // all outer invocations are in flight before the first inner call
+			in := fpgo.PMap(func(y int) int { return y + x }, nil, 1, 2, 3)
+			if len(in) != 3 {
+				return -1
+			}
+			return in[0] + in[1] + in[2] - 5 // = 3x + 1
+		}
 		return 3*x + 1
 	}
 	done := make(chan []int, 1)
@@ -252,7 +271,7 @@ func c16Fast(n, pool int, usePool, random bool) E {
 		} else {
 			out["fastout"] = r
 		}
-	case <-time.After(60 * time.Second):
+	case <-time.After(20 * time.Second):
 		out["kind"] = "PMap did not return"
 	}
 	out["applied"] = int(atomic.LoadInt32(&applied))
@@ -301,7 +320,15 @@ func c16Main(args []string) error {
 				}
 			}
 			w.write(c16Fast(3000, 0, false, r%2 == 0))
-			runs++
+			w.write(c16FastN(400, 0, false, r%2 == 1, true))
+			runs += 2
+			// one PMapOption{FixedPool: 3} reused for a long, a short, an EMPTY and a long list again: the bound of every call is min(3, n)
+			c16SharedOpt = &fpgo.PMapOption{FixedPool: 3, RandomOrder: r%2 == 1}
+			for _, n := range []int{6, 2, 0, 6, 1, 5} {
+				w.write(c16Run(rng, n, 3, true, r%2 == 1, true))
+				runs++
+			}
+			c16SharedOpt = nil
 		}
 		fmt.Printf("{\"runs\":%d}\n", runs)
 		return nil
